@@ -153,6 +153,7 @@ template <typename view_t> void run(const std::string& id, const view_t& view, c
                 std::string b = "[";
                 for (size_t i = 0; i < L; i++) { if (i) b += ","; b += pg::num((T)buf[i]); }
                 printf("{\"id\":\"%s\",\"k\":%zu,\"buf\":%s]}\n", id.c_str(), k, b.c_str());
+                fflush(stdout); // a sanitizer abort in a later schedule must not lose this record
                 k++;
             }
             fflush(stdout);
